@@ -110,7 +110,9 @@ impl PriceLookupCtx<'_> {
         't: 'r,
     {
         Box::new(txn.posts.iter().map(move |p| {
-            if p.acctn.comm.is_any() {
+            // a posting which is already in the target commodity is never converted
+            // (a price db could contain a self pair, e.g. 'P ... EUR 2 EUR')
+            if p.acctn.comm.is_any() && p.acctn.comm != in_commodity {
                 let mut acctn = p.acctn.clone();
                 let mut amount = p.amount;
                 match &self.cache {
